@@ -515,7 +515,7 @@ impl World {
                     return true;
                 }
                 _ => {
-                    if self.pending_async.load(Ordering::Relaxed) && matches!(steps[i], Step::Admin(_) | Step::ReloadSighup(_) | Step::WriteConfig(_)) {
+                    if self.pending_async.load(Ordering::Relaxed) && matches!(steps[i], Step::Admin(_) | Step::ReloadSighup(_) | Step::WriteConfig(_) | Step::Probe) {
                         return false;
                     }
                     return true;
@@ -579,6 +579,16 @@ impl World {
     }
 
     async fn admin_cmd(&mut self, sql: &str) {
+        // an admin session that was closed (e.g. a failed RELOAD ends it) is re-established
+        if let Some(a) = self.admin {
+            if self.clients[a].buf.lock().eof {
+                self.clients[a].open = false;
+                let ok = self.login(a, "admin_user", "pgcat", Some("admin_pass"), &[]).await;
+                if !ok {
+                    self.log(Rec::Note { msg: "admin re-login failed".into() });
+                }
+            }
+        }
         let a = match self.admin {
             Some(a) => a,
             None => {
@@ -758,9 +768,15 @@ impl World {
                 .map(|s| serde_json::json!({"addr": s.addr, "accept": format!("{:?}", s.accept), "startup": format!("{:?}", s.startup), "faults": s.faults.iter().map(|f| format!("{:?}", f)).collect::<Vec<_>>()}))
                 .collect()
         };
+        let config_json = serde_json::to_value(pgcat::config::get_config()).map(|v| v.to_string()).unwrap_or_default();
+        let config_hash = {
+            let mut h = DefaultHasher::new();
+            config_json.hash(&mut h);
+            h.finish()
+        };
         let now_s = pgcat::verif::clock::elapsed().as_secs();
         let now_ms = pgcat::verif::clock::elapsed().as_millis() as u64;
-        let data = serde_json::json!({"pools": pools, "bans": bans, "servers": servers, "clients": clients, "show_pools": show_pools, "csm": csm, "backends": backends, "now_s": now_s, "now_ms": now_ms});
+        let data = serde_json::json!({"pools": pools, "bans": bans, "servers": servers, "clients": clients, "show_pools": show_pools, "csm": csm, "backends": backends, "now_s": now_s, "now_ms": now_ms, "config_hash": config_hash.to_string()});
         self.log(Rec::Probe { data: data.to_string() });
     }
 
